@@ -156,6 +156,12 @@ class Repo:
 
         self.purity = purity.Purity(trees)
         paths.PURITY = self.purity
+        self.renamed_functions: dict[str, str] = {}
+        if os.environ.get("HSA_NO_ALIGN") != "1":
+            paths.MUTABLE_ATTRS = mutable
+            for t in trees.values():
+                align.strip_annotations(t)
+            self.renamed_functions = align.restore_function_names(trees)
         for name, (path, src) in srcs.items():
             self.modules[name] = Module(name, path, src, trees[name], mutable)
         self._const_cache: dict[tuple[str, str], object] = {}
